@@ -29,7 +29,8 @@ EXHAUSTIVE_SUBDOMAINS = {
 }
 REQUIRED_CLASSES = {'tie': 200, 'over': 200, 'under': 200, 'nfrac<0': 100, 'nfrac>nword': 100}
 
-ROUTES = ('ctor', 'call', 'set_val', 'setitem')
+# 'setitem_int' = indexed assignment into an object that was built from python ints (its value dtype is int when n_frac<=0)
+ROUTES = ('ctor', 'call', 'set_val', 'setitem', 'setitem_int')
 INT_ELEMS = ('np.int8', 'np.int16', 'np.int32', 'np.int64', 'np.uint8', 'np.uint16', 'np.uint32', 'np.uint64')
 FLT_ELEMS = ('np.float16', 'np.float32', 'np.float64', 'np.longdouble')
 ELEMS = ('int', 'float', 'str') + INT_ELEMS + FLT_ELEMS
@@ -118,16 +119,19 @@ def store(fmt, mode, obj, route, cont, n, shape2):
         x = F(None, s, w, f, **kw)
         x.set_val(obj)
         return x, None
-    if route == 'setitem':
+    if route in ('setitem', 'setitem_int'):
+        def zeros(shape):
+            z = np.zeros(shape)
+            return z if route == 'setitem' else z.astype(int).tolist()
         if cont in ('scalar', '0d'):
-            x = F(np.zeros(3), s, w, f, **kw)
+            x = F(zeros(3), s, w, f, **kw)
             x[1] = obj
             return x, ('idx', 1)
         if cont in ('2d', 'nlist', 'ntuple'):
-            x = F(np.zeros((shape2[0] + 1, shape2[1])), s, w, f, **kw)
+            x = F(zeros((shape2[0] + 1, shape2[1])), s, w, f, **kw)
             x[1:] = obj
             return x, ('rows', 1)
-        x = F(np.zeros(n + 2), s, w, f, **kw)
+        x = F(zeros(n + 2), s, w, f, **kw)
         x[1:n + 1] = obj
         return x, ('slice', 1, n + 1)
     raise ValueError(route)
@@ -285,7 +289,7 @@ def check_complex(ctx, case):
         ctx.nontrivial(('cplx', fmt, mode, elem, route, cont, tuple(vs)))
     ctx.sample(case, nontriv)
     sig = 'complex/%s/%s/%s' % (elem, cont, route)
-    ok, res = ctx.guard(case, store, fmt, mode, obj, route if route != 'setitem' else 'ctor', cont, len(vs), (1, len(vs)),
+    ok, res = ctx.guard(case, store, fmt, mode, obj, route if not route.startswith('setitem') else 'ctor', cont, len(vs), (1, len(vs)),
                         sig_prefix=sig + '/')
     if not ok:
         return
